@@ -18,6 +18,8 @@ def classify(ev):
 
 def run(ctx):
     relcommon.exhaustive(ctx)
+    if relcommon.replayed(ctx, classify, ('"e":"Reset"',)):
+        return
     drv = ctx.go_build("relational")
     trace = ctx.work + "/c24.ndjson"
     nscen = 600 if ctx.thorough() else 100
